@@ -1008,7 +1008,8 @@ pub fn range_decl_status(r: &RangeDecl) -> DeclStatus {
             return DeclStatus::Reject("subkeys inside a range".into());
         }
         if matches!(&*b.value, Val::Null) {
-            open = Some("null as a branch value".to_string());
+            // a null defaults a whole key, not one branch (generated code cannot render it)
+            return DeclStatus::Reject("null as a branch value".into());
         }
         let mut is_fb = b.counts.is_empty();
         let mut partial_fb = false;
